@@ -140,52 +140,27 @@ theorem discovery_dbonly (o : Opts) (p : Str) (w : World) (h : DbOnly p w)
     journalNames o p w = .ok ([], []) := by
   simp [journalNames, hw, hr, hn, h.1, h.2]
 
+theorem inputChecks_no_journal_db_only (o : Opts) (i : Input) (w : World) (h : DbOnly i.sqlitePath w) :
+    inputChecks { o with noJournal := true } i w
+      = inputChecks { o with noJournal := false, wal := [], rollbackJournal := [] } i w := by
+  unfold inputChecks
+  rw [no_journal_names, discovery_dbonly _ i.sqlitePath w h rfl rfl rfl]
+
 theorem no_journal_is_db_only (o : Opts) (i : Input) (w : World) (h : DbOnly i.sqlitePath w) :
     validate { o with noJournal := true } i w
       = validate { o with noJournal := false, wal := [], rollbackJournal := [] } i w := by
-  have hj : journalNames { o with noJournal := true } i.sqlitePath w
-      = journalNames { o with noJournal := false, wal := [], rollbackJournal := [] } i.sqlitePath w := by
-    rw [no_journal_names, discovery_dbonly _ i.sqlitePath w h rfl rfl rfl]
-  have ha : ∀ outDir pfx eff, afterDirectory { o with noJournal := true } i w outDir pfx eff
-      = afterDirectory { o with noJournal := false, wal := [], rollbackJournal := [] } i w outDir pfx eff := by
-    intro outDir pfx eff
-    unfold afterDirectory
-    rw [hj]
   unfold validate
-  show (match optionChecks o with
-    | some r => Outcome.refuse r (logEffects o)
-    | none => _) = (match optionChecks o with
-    | some r => Outcome.refuse r (logEffects o)
-    | none => _)
-  cases optionChecks o with
-  | some r => rfl
-  | none =>
-    show (match setupDirectory o i w (filePrefixOf o i) with
-      | .error r => _
-      | .ok (outDir, effD) => _) = (match setupDirectory o i w (filePrefixOf o i) with
-      | .error r => _
-      | .ok (outDir, effD) => _)
-    cases setupDirectory o i w (filePrefixOf o i) with
-    | error r => rfl
-    | ok x => exact ha _ _ _
+  rw [inputChecks_no_journal_db_only o i w h]
+  rfl
 
-theorem afterDirectory_no_journal_ready (o : Opts) (i : Input) (w : World) (outDir pfx : Str)
-    (eff0 : List Effect) (r : Ready) (eff : List Effect)
-    (h : afterDirectory { o with noJournal := true } i w outDir pfx eff0 = .ready r eff) :
-    r.walName = [] ∧ r.rjName = [] ∧ r.walOpened = false ∧ r.rjOpened = false := by
-  unfold afterDirectory at h
+theorem inputChecks_no_journal_ok (o : Opts) (i : Input) (w : World) (wn rn : Str) (wo ro : Bool)
+    (h : inputChecks { o with noJournal := true } i w = .ok wn rn wo ro) :
+    wn = [] ∧ rn = [] ∧ wo = false ∧ ro = false := by
+  unfold inputChecks at h
   rw [no_journal_names] at h
   simp only [] at h
-  split at h
-  · cases h
-  · split at h
-    · cases h
-    · split at h
-      · repeat (split at h <;> try cases h)
-      · split at h
-        · cases h
-        · cases h
-          simp
+  repeat' (split at h)
+  all_goals (first | (cases h; done) | (cases h; simp))
 
 theorem no_journal_ready (o : Opts) (i : Input) (w : World) (r : Ready) (eff : List Effect)
     (h : validate { o with noJournal := true } i w = .ready r eff) :
@@ -195,19 +170,15 @@ theorem no_journal_ready (o : Opts) (i : Input) (w : World) (r : Ready) (eff : L
   · cases h
   · split at h
     · cases h
-    · exact afterDirectory_no_journal_ready o i w _ _ _ r eff h
+    · cases h
+    · rename_i wn rn wo ro hic
+      have := inputChecks_no_journal_ok o i w wn rn wo ro hic
+      split at h
+      · cases h
+      · cases h
+        exact this
 
 /-! ### what has happened when a run is refused -/
-
-theorem afterDirectory_effects (o : Opts) (i : Input) (w : World) (outDir pfx : Str) (eff : List Effect) :
-    (afterDirectory o i w outDir pfx eff).effects = eff := by
-  unfold afterDirectory
-  split
-  · rfl
-  · split
-    · rfl
-    · simp only []
-      repeat (split <;> try rfl)
 
 theorem logEffects_mem (o : Opts) (e : Effect) (h : e ∈ logEffects o) : e = .logFile o.logFile := by
   unfold logEffects at h
@@ -253,115 +224,154 @@ theorem validation_effects_bounded (o : Opts) (i : Input) (w : World) :
         ∨ (e = .mkdir (subDir o i) ∧ i.multi = true) := by
   unfold validate
   split
-  · intro e he
-    exact Or.inl (logEffects_mem o e he)
+  · exact fun e he => Or.inl (logEffects_mem o e he)
   · split
-    · rename_i r hsd
-      intro e he
-      simp only [Outcome.effects, List.mem_append] at he
-      rcases he with he | he
-      · exact Or.inl (logEffects_mem o e he)
-      · split at he <;> simp at he
-        rename_i hc
-        exact Or.inr (Or.inl ⟨he, by simpa using hc.2⟩)
-    · rename_i outDir effD hsd
-      rw [afterDirectory_effects]
-      intro e he
-      simp only [List.mem_append] at he
-      rcases he with he | he
-      · exact Or.inl (logEffects_mem o e he)
-      · exact Or.inr (setupDirectory_effects o i w outDir effD hsd e he)
+    · exact fun e he => Or.inl (logEffects_mem o e he)
+    · exact fun e he => Or.inl (logEffects_mem o e he)
+    · split
+      · intro e he
+        simp only [Outcome.effects, List.mem_append] at he
+        rcases he with he | he
+        · exact Or.inl (logEffects_mem o e he)
+        · split at he <;> simp at he
+          rename_i hc
+          exact Or.inr (Or.inl ⟨he, by simpa using hc.2⟩)
+      · rename_i outDir effD hsd
+        intro e he
+        simp only [Outcome.effects, List.mem_append] at he
+        rcases he with he | he
+        · exact Or.inl (logEffects_mem o e he)
+        · exact Or.inr (setupDirectory_effects o i w outDir effD hsd e he)
 
-/-- the refusals decided from the options alone -/
-def OptionLevel (r : Refusal) : Prop :=
-  r = .carveFreelistsWithoutCarve ∨ r = .exportNeedsDirectory ∨ r = .prefixNeedsDirectory
-
-theorem optionChecks_level (o : Opts) (r : Refusal) (h : optionChecks o = some r) : OptionLevel r := by
-  unfold optionChecks at h
-  unfold OptionLevel
-  split at h
-  · cases h; simp
-  · split at h
-    · cases h; simp
-    · split at h
-      · cases h; simp
-      · cases h
-
-theorem journalNames_not_option_level (o : Opts) (p : Str) (w : World) (r : Refusal)
-    (h : journalNames o p w = .error r) : ¬ OptionLevel r := by
-  unfold journalNames at h
-  unfold OptionLevel
-  repeat' (split at h)
-  all_goals (first | (cases h; done) | (cases h; simp))
-
-theorem afterDirectory_not_option_level (o : Opts) (i : Input) (w : World) (d pfx : Str) (eff eff' : List Effect)
-    (r : Refusal) (h : afterDirectory o i w d pfx eff = .refuse r eff') : ¬ OptionLevel r := by
-  unfold afterDirectory at h
-  split at h
-  · cases h; simp [OptionLevel]
-  · split at h
-    · rename_i r' hj
-      cases h
-      exact journalNames_not_option_level o _ w _ hj
-    · simp only [] at h
-      unfold OptionLevel
-      repeat' (split at h)
-      all_goals (first | (cases h; done) | (cases h; simp))
-
-theorem setupDirectory_not_option_level (o : Opts) (i : Input) (w : World) (pfx : Str) (r : Refusal)
-    (h : setupDirectory o i w pfx = .error r) : ¬ OptionLevel r := by
-  unfold setupDirectory at h
-  unfold OptionLevel
-  simp only [] at h
-  repeat' (split at h)
-  all_goals (first | (cases h; done) | (cases h; simp))
-
-/-- an option-level refusal has created nothing but (possibly) the log file -/
-theorem option_refusal_effects (o : Opts) (i : Input) (w : World) (r : Refusal) (eff : List Effect)
-    (h : validate o i w = .refuse r eff) (hr : OptionLevel r) : ∀ e ∈ eff, e = .logFile o.logFile := by
+/-- a refusal — for the options, the input, the journals, or because the output directory cannot be made —
+has created nothing but (possibly) the log file; the one exception is the operating system failing to make the
+per-file *sub*-directory after the output directory itself was made -/
+theorem refusal_effects (o : Opts) (i : Input) (w : World) (r : Refusal) (eff : List Effect)
+    (h : validate o i w = .refuse r eff) (hr : r ≠ .cannotCreateSubDirectory) :
+    ∀ e ∈ eff, e = .logFile o.logFile := by
   unfold validate at h
   split at h
-  · cases h
-    exact fun e he => logEffects_mem o e he
+  · cases h; exact fun e he => logEffects_mem o e he
   · split at h
-    · rename_i r' hsd
-      cases h
-      exact absurd hr (setupDirectory_not_option_level o i w _ _ hsd)
-    · exact absurd hr (afterDirectory_not_option_level o i w _ _ _ _ r h)
+    · cases h; exact fun e he => logEffects_mem o e he
+    · cases h
+    · split at h
+      · cases h
+        intro e he
+        simp only [List.mem_append] at he
+        rcases he with he | he
+        · exact logEffects_mem o e he
+        · split at he
+          · rename_i hc; exact absurd hc.1 hr
+          · cases he
+      · cases h
 
-/-- when the output directory already exists (or none is named) and a single file is processed, no
-refusal and no exit(0) has created anything but the log file -/
-theorem refusal_effects_existing_directory (o : Opts) (i : Input) (w : World)
-    (hd : o.directory = [] ∨ w.pathExists o.directory = true) (hm : i.multi = false) :
-    ∀ e ∈ (validate o i w).effects, e = .logFile o.logFile := by
-  intro e he
-  rcases validation_effects_bounded o i w e he with h | h | h
-  · exact h
-  · rcases hd with hd | hd
-    · -- no directory named: setupDirectory has no effects at all
-      exfalso
-      unfold validate at he
-      split at he
-      · have := logEffects_mem o e he; rw [h.1] at this; cases this
-      · simp only [setupDirectory, hd, if_true] at he
-        rw [afterDirectory_effects] at he
-        simp at he
-        have := logEffects_mem o e he; rw [h.1] at this; cases this
-    · rw [hd] at h; cases h.2
-  · rw [hm] at h; cases h.2
-
-/-- the prefix defaults to the base name of the input -/
-theorem prefix_default (o : Opts) (i : Input) (w : World) (r : Ready) (eff : List Effect)
-    (hp : o.filePrefix = []) (h : validate o i w = .ready r eff) : r.filePrefix = baseName i.sqlitePath := by
+/-- an exit(0) ("nothing to parse") has created nothing but the log file -/
+theorem exit0_effects (o : Opts) (i : Input) (w : World) (x : Exit0) (eff : List Effect)
+    (h : validate o i w = .exit0 x eff) : ∀ e ∈ eff, e = .logFile o.logFile := by
   unfold validate at h
   split at h
   · cases h
   · split at h
     · cases h
-    · unfold afterDirectory at h
-      simp only [filePrefixOf, hp] at h
-      repeat (split at h <;> try cases h)
-      all_goals rfl
+    · cases h; exact fun e he => logEffects_mem o e he
+    · split at h <;> cases h
+
+/-- the excluded case does create the output directory first -/
+theorem subdirectory_failure_after_mkdir (o : Opts) (i : Input) (w : World) (eff : List Effect)
+    (h : validate o i w = .refuse .cannotCreateSubDirectory eff) (hd : w.pathExists o.directory = false) :
+    Effect.mkdir o.directory ∈ eff := by
+  unfold validate at h
+  split at h
+  · rename_i r hoc
+    cases h
+    exfalso
+    unfold optionChecks at hoc
+    repeat' (split at hoc)
+    all_goals cases hoc
+  · split at h
+    · rename_i r hic
+      cases h
+      exfalso
+      unfold inputChecks at hic
+      split at hic
+      · cases hic
+      · split at hic
+        · rename_i r' hj
+          cases hic
+          unfold journalNames at hj
+          repeat' (split at hj)
+          all_goals cases hj
+        · simp only [] at hic
+          repeat' (split at hic)
+          all_goals cases hic
+    · cases h
+    · split at h
+      · cases h
+        simp [hd]
+      · cases h
+
+/-- the prefix is the option when given, else the base name of the input -/
+theorem ready_prefix (o : Opts) (i : Input) (w : World) (r : Ready) (eff : List Effect)
+    (h : validate o i w = .ready r eff) : r.filePrefix = filePrefixOf o i := by
+  unfold validate at h
+  split at h
+  · cases h
+  · split at h
+    · cases h
+    · cases h
+    · split at h
+      · cases h
+      · cases h; rfl
+
+theorem prefix_default (o : Opts) (i : Input) (w : World) (r : Ready) (eff : List Effect)
+    (hp : o.filePrefix = []) (h : validate o i w = .ready r eff) : r.filePrefix = baseName i.sqlitePath := by
+  rw [ready_prefix o i w r eff h]
+  simp [filePrefixOf, hp]
+
+/-- what `ready` records about the directory: it is `[]` exactly when no directory was named -/
+theorem ready_outDir (o : Opts) (i : Input) (w : World) (r : Ready) (eff : List Effect)
+    (h : validate o i w = .ready r eff) :
+    (o.directory = [] ∧ r.outDir = []) ∨ (o.directory ≠ [] ∧ (r.outDir = o.directory ∨ r.outDir = subDir o i)) := by
+  unfold validate at h
+  split at h
+  · cases h
+  · split at h
+    · cases h
+    · cases h
+    · split at h
+      · cases h
+      · rename_i outDir effD hsd
+        cases h
+        simp only []
+        unfold setupDirectory at hsd
+        split at hsd
+        · cases hsd; left; rename_i hd; exact ⟨hd, rfl⟩
+        · rename_i hd
+          right
+          refine ⟨hd, ?_⟩
+          simp only [] at hsd
+          repeat' (split at hsd)
+          all_goals (first | (cases hsd; done) | (cases hsd; first | (left; rfl) | (right; simp [subDir])))
+
+theorem optionChecks_none_prefix (o : Opts) (h : optionChecks o = none) : '/' ∉ o.filePrefix := by
+  unfold optionChecks at h
+  repeat' (split at h)
+  all_goals (first | (cases h; done) | skip)
+  rename_i hx
+  intro hm
+  apply hx
+  refine ⟨?_, hm⟩
+  intro hnil
+  rw [hnil] at hm
+  cases hm
+
+theorem ready_optionChecks (o : Opts) (i : Input) (w : World) (r : Ready) (eff : List Effect)
+    (h : validate o i w = .ready r eff) : optionChecks o = none := by
+  unfold validate at h
+  split at h
+  · cases h
+  · assumption
 
 /-! ### every written file lies directly beneath the output directory (when the names carry no '/') -/
 
@@ -395,11 +405,19 @@ theorem noSep_dropLastSeg (p acc : Str) (h : NoSep acc) : NoSep (dropLastSeg p a
 theorem noSep_baseName (p : Str) : NoSep (baseName p) :=
   noSep_dropLastSeg p [] (by simp [NoSep])
 
-theorem csvLeaf_noSep (pfx name : Str) (hp : NoSep pfx) (hn : NoSep name) : NoSep (csvLeaf pfx name) := by
-  unfold csvLeaf
+theorem noSep_replace_sep (s : Str) : NoSep (replaceChar '/' '_' s) := by
+  unfold NoSep replaceChar
+  intro hm
+  rw [List.mem_map] at hm
+  obtain ⟨c, _, hcv⟩ := hm
+  split at hcv
+  · cases hcv
+  · rename_i hc; exact hc hcv
+
+theorem csvLeaf_noSep (pfx name : Str) (hp : NoSep pfx) : NoSep (csvLeaf pfx name) := by
+  unfold csvLeaf csvName
   rw [noSep_append, noSep_append, noSep_append]
-  refine ⟨⟨⟨hp, by decide⟩, ?_⟩, by decide⟩
-  exact noSep_replaceChar _ _ _ (by decide) (noSep_replaceChar _ _ _ (by decide) hn)
+  exact ⟨⟨⟨hp, by decide⟩, noSep_replace_sep _⟩, by decide⟩
 
 theorem csvLeaf_ne_nil (pfx name : Str) : csvLeaf pfx name ≠ [] := by
   unfold csvLeaf
@@ -432,12 +450,12 @@ theorem suffix_ne_nil (a b : Str) (hb : b ≠ []) : a ++ b ≠ [] := by
   exact hb this.2
 
 theorem fileFor_under (f : Fmt) (r : Ready) (name : Str) (hd : r.outDir ≠ []) (hp : NoSep r.filePrefix)
-    (hn : NoSep name) (hf : fileFor f r name ≠ []) : Under r.outDir (fileFor f r name) := by
+    (hf : fileFor f r name ≠ []) : Under r.outDir (fileFor f r name) := by
   cases f with
   | text =>
     simp only [fileFor, hd, if_false]
     exact under_sepCat _ _ ((noSep_append _ _).2 ⟨hp, by decide⟩) (suffix_ne_nil _ _ (by decide))
-  | csv => exact under_pyJoin _ _ hd (csvLeaf_noSep _ _ hp hn) (csvLeaf_ne_nil _ _)
+  | csv => exact under_pyJoin _ _ hd (csvLeaf_noSep _ _ hp) (csvLeaf_ne_nil _ _)
   | sqlite => exact under_sepCat _ _ ((noSep_append _ _).2 ⟨hp, by decide⟩) (suffix_ne_nil _ _ (by decide))
   | xlsx => exact under_sepCat _ _ ((noSep_append _ _).2 ⟨hp, by decide⟩) (suffix_ne_nil _ _ (by decide))
   | case => exact absurd rfl hf
@@ -457,10 +475,10 @@ theorem plan_files (o : Opts) (r : Ready) (es : List Entry) (it : Item) (h : it 
     · cases hf
   rcases h with h | h | h | h <;> exact key _ h
 
-/-- with a prefix and entry names free of '/', everything a run writes is a direct child of the output
-directory (or, for `case.json`, of the directory the user named) -/
+/-- with a prefix free of '/', everything a run writes is a direct child of the output directory (or, for
+`case.json`, of the directory the user named), whatever the entry names are -/
 theorem written_files_under (o : Opts) (r : Ready) (ex : List Str) (es : List Entry)
-    (hd : r.outDir ≠ []) (hdir : o.directory ≠ []) (hp : NoSep r.filePrefix) (hn : ∀ e ∈ es, NoSep e.name) :
+    (hd : r.outDir ≠ []) (hdir : o.directory ≠ []) (hp : NoSep r.filePrefix) :
     ∀ f ∈ writtenFiles o r ex es, Under r.outDir f ∨ Under o.directory f := by
   intro f hf
   unfold writtenFiles at hf
@@ -472,11 +490,11 @@ theorem written_files_under (o : Opts) (r : Ready) (ex : List Str) (es : List En
     obtain ⟨g, hg, rfl⟩ := hx
     have hg2 := (List.mem_filter.1 hg).2
     simp only [Bool.and_eq_true, decide_eq_true_eq] at hg2
-    exact fileFor_under g r [] hd hp (by simp [NoSep]) hg2.2
+    exact fileFor_under g r [] hd hp hg2.2
   · obtain ⟨g, e, he, hfile⟩ := plan_files o r es it hit
     left
     rw [hfile]
-    apply fileFor_under g r e.name hd hp (hn e he)
+    apply fileFor_under g r e.name hd hp
     rw [← hfile]
     simp at hw
     exact hw.2
@@ -485,8 +503,7 @@ theorem written_files_under (o : Opts) (r : Ready) (ex : List Str) (es : List En
     split at hit
     · rw [List.mem_map] at hit
       obtain ⟨e, he, rfl⟩ := hit
-      exact under_pyJoin _ _ hd (csvLeaf_noSep _ _ (noSep_baseName _) (hn e (List.mem_filter.1 he).1))
-        (csvLeaf_ne_nil _ _)
+      exact under_pyJoin _ _ hd (csvLeaf_noSep _ _ (noSep_baseName _)) (csvLeaf_ne_nil _ _)
     · cases hit
   · right
     cases hcf : caseFile o r with
@@ -500,5 +517,88 @@ theorem written_files_under (o : Opts) (r : Ready) (ex : List Str) (es : List En
         rw [hc]
         exact under_pyJoin o.directory "case.json".toList hdir (by decide) (by decide)
       · cases hcf
+
+/-- the prefix `main` settles on never contains '/': a given prefix with one is refused, the default is a base
+name -/
+theorem ready_prefix_noSep (o : Opts) (i : Input) (w : World) (r : Ready) (eff : List Effect)
+    (h : validate o i w = .ready r eff) : NoSep r.filePrefix := by
+  rw [ready_prefix o i w r eff h]
+  unfold filePrefixOf
+  split
+  · exact optionChecks_none_prefix o (ready_optionChecks o i w r eff h)
+  · exact noSep_baseName _
+
+/-- every file written by a run that passed validation lies directly beneath the output directory (case.json:
+beneath the directory the user named), for every prefix, every entry name and every journal name -/
+theorem written_files_under_ready (o : Opts) (i : Input) (w : World) (r : Ready) (eff : List Effect)
+    (ex : List Str) (es : List Entry) (h : validate o i w = .ready r eff) (hd : r.outDir ≠ []) :
+    ∀ f ∈ writtenFiles o r ex es, Under r.outDir f ∨ Under o.directory f := by
+  have hdir : o.directory ≠ [] := by
+    rcases ready_outDir o i w r eff h with ⟨_, h2⟩ | ⟨h1, _⟩
+    · exact absurd h2 hd
+    · exact h1
+  exact written_files_under o r ex es hd hdir (ready_prefix_noSep o i w r eff h)
+
+theorem ready_exportTypes (o : Opts) (i : Input) (w : World) (r : Ready) (eff : List Effect)
+    (h : validate o i w = .ready r eff) : r.exportTypes = exportTypes o.exports := by
+  unfold validate at h
+  split at h
+  · cases h
+  · split at h
+    · cases h
+    · cases h
+    · split at h
+      · cases h
+      · cases h; rfl
+
+theorem exportTypes_without_directory (o : Opts) (h : optionChecks o = none) (hd : o.directory = []) :
+    exportTypes o.exports = [.text] := by
+  unfold optionChecks at h
+  split at h
+  · cases h
+  · split at h
+    · cases h
+    · rename_i hn
+      have hnd : needsDirectory o.exports = false := by
+        cases hx : needsDirectory o.exports
+        · rfl
+        · exact absurd ⟨hx, hd⟩ hn
+      unfold exportTypes
+      cases hex : o.exports with
+      | nil => simp
+      | cons a t =>
+        cases t with
+        | nil =>
+          rw [hex] at hnd
+          simp [needsDirectory] at hnd
+          simp [hnd]
+        | cons b t' =>
+          rw [hex] at hnd
+          simp [needsDirectory] at hnd
+
+/-- without `--directory` a run writes no file at all (text goes to the console) -/
+theorem no_directory_no_files (o : Opts) (i : Input) (w : World) (r : Ready) (eff : List Effect)
+    (ex : List Str) (es : List Entry) (h : validate o i w = .ready r eff) (hd : r.outDir = []) :
+    writtenFiles o r ex es = [] := by
+  have hdir : o.directory = [] := by
+    rcases ready_outDir o i w r eff h with ⟨h1, _⟩ | ⟨h1, h2⟩
+    · exact h1
+    · rcases h2 with h2 | h2
+      · rw [h2] at hd; exact absurd hd h1
+      · exfalso
+        rw [h2] at hd
+        unfold subDir pyJoin at hd
+        split at hd
+        · rename_i hh
+          rw [hd] at hh
+          cases hh
+        · split at hd
+          · have := congrArg List.length hd; simp at this
+          · have := congrArg List.length hd; simp at this
+  have het : r.exportTypes = [.text] := by
+    rw [ready_exportTypes o i w r eff h]
+    exact exportTypes_without_directory o (ready_optionChecks o i w r eff h) hdir
+  unfold writtenFiles formatFiles journalPlan caseFile plan rowFormats
+  simp [het, hd, fileFor, planFmt, itemFor]
 
 end SqliteDissect.Proofs.Cli
